@@ -282,7 +282,7 @@ theorem trimSpaceGo_pad (w1 x w2 : Bytes) (h1 : AllSp w1 = true) (h2 : AllSp w2 
   rw [trimRightRev_pad w2.reverse x.reverse (by rw [allSp_reverse]; exact h2) hr' _ (by simp)]
   simp
 
-theorem lexAux_nil (fuel : Nat) (m : LexMode) (prev : Option UInt8) : lexAux fuel m prev [] = [] := by
+theorem lexAux_nil (fuel : Nat) (m : LexMode) (esc : Bool) : lexAux fuel m esc [] = [] := by
   cases fuel <;> simp [lexAux]
 
 theorem ident_all {v : Bytes} (h : Ident v = true) : v ≠ [] ∧ v.all isIdentChar = true := by
